@@ -179,7 +179,9 @@ def run_impl(case):
                 data = {"mot": conv(x), "det": conv(y)}
                 if case.get("extra_stream") and i % 3 == 1:
                     # an event of another stream without the fields: must be skipped (KeyError branch of compute)
-                    ps("event", {"uid": f"o{i}", "descriptor": "other", "seq_num": i + 1, "time": 0.0, "data": {"other": 1.0}, "timestamps": {"other": 0.0}})
+                    # (none of the two fields, x only -- e.g. the motor in the baseline stream --, or y only)
+                    other = [{"other": 1.0}, {"mot": -7.5, "other": 1.0}, {"det": 123.0}][(i // 3) % 3]
+                    ps("event", {"uid": f"o{i}", "descriptor": "other", "seq_num": i + 1, "time": 0.0, "data": other, "timestamps": {k: 0.0 for k in other}})
                 ps("event", {"uid": f"e{i}", "descriptor": "desc", "seq_num": i + 1, "time": float(i), "data": data, "timestamps": {"mot": 0.0, "det": 0.0}})
             ps("stop", {"uid": "stop", "run_start": "run", "time": 1.0, "exit_status": "success"})
     except Exception as e:  # noqa: BLE001
